@@ -678,6 +678,64 @@ func scanFromZero(l *Loop) (idx, bound ssa.Value, ok bool) {
 	return nil, nil, false
 }
 
+// c05WholeWalk: loop l visits EVERY element of one list - the indices 0, 1, 2, ... in this order (scanFromZero)
+// up to the list's length - and elem, if given, is the element at the index of the current iteration. list, if
+// given, is the term the list must have (`recv.Genes`): the length and the element may then be taken from two
+// loads of it (`k < len(g.Genes)` ... `g.Genes[k]`); a local list is identified by its SSA value. The answer
+// is "" or what is missing. A loop that starts at 1, stops before the end or reads a fixed element leaves
+// elements out: a scan that is to exclude `some gene ...` then proves nothing, and a loop that is to act on
+// every target does not.
+func c05WholeWalk(tm *Termer, l *Loop, elem ssa.Value, list string) string {
+	idx, bound, ok := scanFromZero(l)
+	if !ok {
+		return "the loop does not visit the indices 0, 1, 2, ... one by one while the index is below a bound"
+	}
+	over := c02LenOf(stripCT(bound))
+	if over == nil {
+		return "the loop's bound is not the length of a list"
+	}
+	if list != "" && tm.Of(over).String() != list {
+		return "the loop's bound is not the length of " + list
+	}
+	if elem == nil {
+		return ""
+	}
+	u, isLoad := stripCT(elem).(*ssa.UnOp)
+	if !isLoad || u.Op != token.MUL {
+		return "the element is not read from the list at the loop's index"
+	}
+	ia, isIA := u.X.(*ssa.IndexAddr)
+	if !isIA || stripCT(ia.Index) != stripCT(idx) {
+		return "the element is not read from the list at the loop's index"
+	}
+	if ia.X != over && !(list != "" && tm.Of(ia.X).String() == list) {
+		return "the loop's bound is the length of another list than the one the element is read from"
+	}
+	return ""
+}
+
+// c05ScanIndex: the index value of the current iteration of a from-zero scan (nil when l is none).
+func c05ScanIndex(l *Loop) ssa.Value {
+	if l == nil {
+		return nil
+	}
+	idx, _, ok := scanFromZero(l)
+	if !ok {
+		return nil
+	}
+	return idx
+}
+
+// c05AtIndex: the list element the term stands for is not known to be read at another index than idx (a
+// comparison of `g.Genes[0]` inside a scan says nothing about the gene of the current iteration).
+func c05AtIndex(elem *Term, idx ssa.Value) bool {
+	if elem == nil || elem.V == nil || idx == nil {
+		return true
+	}
+	ix := elemIndexOf(elem.V)
+	return ix == nil || stripCT(ix) == stripCT(idx)
+}
+
 // elemIndexOf: v is the load `*(&xs[i])` (or xs[i] of an array value); returns i.
 func elemIndexOf(v ssa.Value) ssa.Value {
 	switch x := stripCT(v).(type) {
